@@ -443,9 +443,31 @@ def render_source(sc):
     out.append("")
     out.append("class Mdl:")
     out.append("    def __init__(self): self.state = None")
+    if sc.get("falsy_model"):
+        out.append("    def __bool__(self): return False      # a model that evaluates as false")
     out += methods(1, sc["provs"][1])
+    inst_l = bool(sc.get("inst_listeners")) and not sc.get("eqgroups")
+    if inst_l:
+        out.append("")
+        out.append("class LS:")
+        out.append("    pass      # all listeners are objects of this one class; each carries its own callables")
     for p in range(2, len(sc["provs"])):
         out.append("")
+        if inst_l:
+            out.append(f"def L{p}():")
+            out.append("    o = LS()")
+            for nm in sc["provs"][p]:
+                kind, k = nm
+                isg = tuple(nm) in gn
+                if kind == 0 and k >= 500:
+                    out.append(f"    o.{cbname(nm)} = None")
+                elif (p, kind, k) in acoros:
+                    out.append(f"    async def f(**kw): return await _acb({p}, {kind}, {k}, {isg}, kw)")
+                    out.append(f"    o.{cbname(nm)} = f")
+                else:
+                    out.append(f"    o.{cbname(nm)} = lambda **kw: _cb({p}, {kind}, {k}, {isg}, kw)")
+            out.append("    return o")
+            continue
         out.append(f"class L{p}:")
         grp = (sc.get("eqgroups") or {}).get(str(p))
         if grp is None:
